@@ -278,7 +278,9 @@ type wtAn struct {
 	busy map[string]bool
 }
 
-func newWT(w *World) *wtAn { return &wtAn{w: w, memo: map[string][]writeFact{}, busy: map[string]bool{}} }
+func newWT(w *World) *wtAn {
+	return &wtAn{w: w, memo: map[string][]writeFact{}, busy: map[string]bool{}}
+}
 
 // writesThrough lists the instructions of f (and in-package callees) that may
 // write memory reachable from parameter idx.
@@ -294,7 +296,7 @@ func (an *wtAn) writesThrough(f *ssa.Function, idx int) []writeFact {
 	defer delete(an.busy, key)
 
 	val := map[ssa.Value]bool{f.Params[idx]: true} // values that may reference receiver storage
-	addr := map[ssa.Value]bool{}                    // addresses inside receiver storage
+	addr := map[ssa.Value]bool{}                   // addresses inside receiver storage
 	changed := true
 	mark := func(m map[ssa.Value]bool, v ssa.Value) {
 		if !m[v] {
